@@ -55,6 +55,8 @@ type State struct {
 	mus     map[string]MuState
 	wgs     map[string]int
 	ctxDone bool
+	ksByKey map[string]*Term // RC4 keystream array per key identity
+	bigBytes map[string]*Term // 96-byte form per big-integer identity
 	sched   []int
 	frames  []*Frame
 	pc      []*Term
@@ -167,6 +169,14 @@ func (st *State) clone() *State {
 	n.wgs = map[string]int{}
 	for k, v := range st.wgs {
 		n.wgs[k] = v
+	}
+	n.ksByKey = map[string]*Term{}
+	for k, v := range st.ksByKey {
+		n.ksByKey[k] = v
+	}
+	n.bigBytes = map[string]*Term{}
+	for k, v := range st.bigBytes {
+		n.bigBytes[k] = v
 	}
 	for i, t := range st.threads {
 		nt := &Thr{done: t.done, sleeping: t.sleeping, hashing: t.hashing}
@@ -645,6 +655,8 @@ func (ex *Exec) Run(fn *ssa.Function) {
 	st.threads = []*Thr{{}}
 	st.mus = map[string]MuState{}
 	st.wgs = map[string]int{}
+	st.ksByKey = map[string]*Term{}
+	st.bigBytes = map[string]*Term{}
 	// run package initialisers of repo packages reachable from the harness package
 	ex.initDone = map[*ssa.Package]bool{}
 	ex.runInits(st, fn.Pkg)
@@ -1918,6 +1930,9 @@ func (ex *Exec) callTarget(st *State, c *ssa.CallCommon) (Value, []Value) {
 			for _, a := range c.Args {
 				args = append(args, ex.get(st, a))
 			}
+			if ov.Kind == "sha1digest" {
+				return OpaqueV{"sha1:" + c.Method.Name(), ov.Ref}, args
+			}
 			if strings.HasPrefix(ov.Kind, "env") && c.Method.Name() != "Err" && c.Method.Name() != "Done" {
 				return OpaqueV{"envinvoke:" + c.Method.Name(), 0}, args
 			}
@@ -1970,6 +1985,31 @@ func (ex *Exec) callValue(st *State, fv Value, args []Value, in *ssa.Call, pos t
 				setRes(ChanV{ex.newObj(st, ChanState{Env: true})})
 			}
 			return true
+		}
+		if strings.HasPrefix(f.Kind, "sha1:") {
+			w := st.heap[f.Ref].Val.(WriterV)
+			switch f.Kind {
+			case "sha1:Write":
+				b := args[0].(SliceV)
+				if b.Obj != 0 {
+					ba, _ := ex.sliceArr(st, b)
+					w.A = ACopy(w.A, w.N, ba.A, b.Off, b.Len)
+					w.N = Add(w.N, b.Len)
+					st.heap[f.Ref] = &Obj{Val: w}
+				}
+				if in != nil {
+					setRes(TupleV{b.Len, nilErr})
+				}
+				return true
+			case "sha1:Sum":
+				msg := SliceV{ex.newObj(st, ArrV{w.A, -1, 8}), Const(64, 0), w.N, w.N}
+				out := ex.sha1Of(st, msg)
+				if in != nil {
+					n := Const(64, 20)
+					setRes(SliceV{ex.newObj(st, ArrV{out, -1, 8}), Const(64, 0), n, n})
+				}
+				return true
+			}
 		}
 		if strings.HasPrefix(f.Kind, "envinvoke:") {
 			// a method of an environment object (response body, ...): arbitrary result by contract
